@@ -515,6 +515,19 @@ func (w *world) genLCA(t *rapid.T) (*types.LightClientAttackEvidence, lcaCtx) {
 			forgedVals = lib.NewValSet(ks, ps).Set
 			sp.ForgedVals = forgedVals
 		}
+		if rapid.IntRange(0, 5).Draw(t, "lca.repeated") == 0 {
+			// forged set = ONE member of the common set listed k times (decoders accept that), every slot signed by it:
+			// its power must count once against the common set however often it appears
+			ctx.valsMode = "repeated"
+			common := c.ValidatorsAt(sp.CommonHeight)
+			i := common.Size() - 1 - rapid.SampledFrom([]int{0, 0, 0, 1, 2}).Draw(t, "lca.rep.fromtail")
+			if i < 0 {
+				i = 0
+			}
+			forgedVals = lib.RepeatedValSet(lib.KeyIndex(common.Validators[i].Address), rapid.Int64Range(1, 10).Draw(t, "lca.rep.power"),
+				rapid.IntRange(2, 12).Draw(t, "lca.rep.k"))
+			sp.ForgedVals = forgedVals
+		}
 		sp.Round = int32(rapid.IntRange(0, 1).Draw(t, "lca.round"))
 	default:
 		sp.ConflictHeight = w.pickHeight(t, "lca.h", 1, tip)
@@ -526,7 +539,11 @@ func (w *world) genLCA(t *rapid.T) (*types.LightClientAttackEvidence, lcaCtx) {
 			}
 		}
 	}
-	sp.Signers, sp.NilSigners, ctx.coalMode = genCoalition(t, forgedVals)
+	if ctx.valsMode == "repeated" {
+		sp.Signers, ctx.coalMode = keysOf(forgedVals)[:1], "all"
+	} else {
+		sp.Signers, sp.NilSigners, ctx.coalMode = genCoalition(t, forgedVals)
+	}
 	ev, err := c.ForgeAttack(*sp)
 	if err != nil {
 		t.Fatalf("VERIF-INFRA: forger: %v", err)
@@ -583,6 +600,9 @@ func nonAbsent(cm *types.Commit) []int {
 
 func (w *world) perturbLCA(t *rapid.T, gen *types.LightClientAttackEvidence, ctx lcaCtx) (types.Evidence, string) {
 	kind := rapid.SampledFrom(lcaPerts).Draw(t, "lca.pert")
+	if ctx.valsMode == "repeated" && (kind == "valset-drop" || kind == "alias-frame" || kind == "sig-addr") {
+		return cloneLCA(gen), kind + "(n/a)" // these rebuild the forged set with the duplicate-refusing constructor
+	}
 	e := cloneLCA(gen)
 	cm := e.ConflictingBlock.Commit
 	na := "(n/a)"
